@@ -1,3 +1,449 @@
-/- C03: property theorems (stub, not yet built) -/
+/-
+C03 — NodePool limits and static node caps are never exceeded.
+
+Property theorems only (helper lemmas: `Karp/Proofs/PoolStateLemmas.lean`, `Karp/Proofs/LimitsLemmas.lean`).
+
+Part 1 (static pools).  Model `Karp/Model/PoolState.lean` (`state.NodePoolState`, every exported method one
+atomic step because each holds the mutex for its whole body, so the interleavings of concurrent reconciles
+are exactly the sequences of steps); specification `Karp/Spec/PoolLedger.lean` (a ledger of existing
+NodeClaims and outstanding grants).
+
+Part 2 (limits).  Model `Karp/Model/Limits.lean` (`remainingResources`, `filterByRemainingResources`,
+`subtractMax`, the early node-limit check, `Limits.ExceededBy`, the pool as a transition system over passes,
+launches and removals); specification `Karp/Spec/LimitsSpec.lean` (sum of node usages against the limits).
+-/
+import Karp.Proofs.PoolStateLemmas
+import Karp.Proofs.LimitsLemmas
+import Karp.Proofs.StaticPoolLemmas
+import Karp.Gen.C03Pool
+import Karp.Gen.C03Limits
+
 namespace Karp.C03
+open Karp.PoolState Karp.Spec.PoolLedger
+
+/-! ## Fact expectations over the regenerated facts -/
+
+/-- the pool entry must never be garbage-collected while Active or Deleting NodeClaims exist -/
+theorem fact_gc_requires_active_and_deleting_empty :
+    0 ∈ Karp.Gen.C03Pool.gcEmptySets ∧ 1 ∈ Karp.Gen.C03Pool.gcEmptySets := by decide
+
+/-- the source is in one of two known states: as found at the pinned commit — which *is* the recorded defect
+    (PendingDisruption and the reserved counter are not looked at; `ReleaseNodeCount` dereferences without a presence
+    check) — or with `fixes/C03-poolstate-gc.patch` applied.  The model (`Variant.asIs`) follows these values; in the
+    first state the witnesses `C03_static_*_witness` show the violation, in the second `C03_static_safe_when_repaired`
+    gives the full-strength statement for the code as it is. -/
+def poolGCAsFound : Bool :=
+  Karp.Gen.C03Pool.gcEmptySets == [0, 1] && !Karp.Gen.C03Pool.gcChecksReserved && !Karp.Gen.C03Pool.releaseGuardsMissingEntry
+def poolGCRepaired : Bool :=
+  Karp.Gen.C03Pool.gcEmptySets == [0, 1, 2] && Karp.Gen.C03Pool.gcChecksReserved && Karp.Gen.C03Pool.releaseGuardsMissingEntry
+
+theorem fact_pool_gc_known_state : (poolGCAsFound || poolGCRepaired) = true := by decide
+
+/-- static provisioning: wait for the cluster sync, read the counts, reserve, then create -/
+theorem fact_static_provision_calls :
+    Karp.Gen.C03Pool.staticProvisionCalls = ["Synced", "GetNodeCount", "ReserveNodeCount", "CreateNodeClaims"] := by decide
+
+/-- static deprovisioning: read the counts, pick candidates, delete, mark Deleting -/
+theorem fact_static_deprovision_calls :
+    Karp.Gen.C03Pool.staticDeprovisionCalls =
+      ["GetNodeCount", "getDeprovisioningCandidates", "kubeClient.Delete", "MarkNodeClaimDeleting"] := by decide
+
+/-- every slot handed to `CreateNodeClaims` is given back, after the create attempt -/
+theorem fact_create_then_release :
+    Karp.Gen.C03Pool.createNodeClaimsCalls = ["p.Create", "ReleaseNodeCount"] := by decide
+
+/-- static drift reserves after reading the counts; `StartCommand` reaches the release (inside
+    `createReplacementNodeClaims` → `CreateNodeClaims`) only after two earlier exits (`HasAny`, `markDisrupted`) -/
+theorem fact_static_drift_calls :
+    Karp.Gen.C03Pool.staticDriftCalls = ["GetNodeCount", "ReserveNodeCount"] ∧
+    Karp.Gen.C03Pool.startCommandCalls = ["HasAny", "markDisrupted", "createReplacementNodeClaims", "MarkForDeletion"] := by decide
+
+/-- the cluster state forwards NodeClaim updates and deletions to the pool state -/
+theorem fact_cluster_forwards :
+    Karp.Gen.C03Pool.clusterUpdateNodeClaimCalls = ["newStateFromNodeClaim", "NodePoolState.UpdateNodeClaim"] ∧
+    Karp.Gen.C03Pool.clusterCleanupCalls.getLast? = some "NodePoolState.Cleanup" := by decide
+
+/-- the `nodes` resource of `spec.limits` -/
+theorem fact_node_resource_name : Karp.Gen.C03Limits.nodeResourceName = "nodes" := by decide
+
+/-- the provisioner schedules only when the cluster state is synced, and creates afterwards -/
+theorem fact_reconcile_gate :
+    Karp.Gen.C03Limits.reconcileCalls = ["cluster.Synced", "p.Schedule", "p.CreateNodeClaims"] := by decide
+
+/-- `Create`: limits check, then the API create, then the state update -/
+theorem fact_create_guard :
+    Karp.Gen.C03Limits.createCalls = ["ExceededBy", "kubeClient.Create", "cluster.UpdateNodeClaim"] := by decide
+
+/-- opening a NodeClaim: node-limit check, filter by the remaining resources, `CanAdd`, `Add`, then `subtractMax` -/
+theorem fact_open_new_calls :
+    Karp.Gen.C03Limits.openNewCalls = ["IsZero", "filterByRemainingResources", "CanAdd", "newNodeClaim.Add", "subtractMax"] := by decide
+
+/-- every existing node is subtracted (`resources.Subtract` of `node.Capacity()`); `subtractMax` subtracts the
+    *maximum* over the options -/
+theorem fact_remaining_bookkeeping :
+    Karp.Gen.C03Limits.existingCalls = ["updateRemainingResources"] ∧
+    Karp.Gen.C03Limits.updateRemainingCalls = ["resources.Subtract", "node.Capacity"] ∧
+    Karp.Gen.C03Limits.subtractMaxCalls = ["resources.MaxResources", "cp.Sub"] := by decide
+
+/-! ## Part 1 — static pools: all interleavings
+
+Full-strength statement (what the property asks of the code as it is):
+
+    theorem C03_static_safe (ops) : ∀ s L, Refines s L → wfTrace L ops (observations .asIs s ops) →
+        accepts L ops (observations .asIs s ops)
+
+i.e. for every interleaving of protocol events, no call panics, `GetNodeCount` reports the NodeClaims that
+exist, and every grant keeps `claims + outstanding ≤ limit` and is maximal.  The code violates it
+(`C03_static_*_witness` below, replayed on the real code by `corpus/c03.poolgc/*`).  It is proved for the
+repaired variant (`C03_static_safe_repaired`) and for the code as it is under exactly the excluded guard
+(`C03_static_safe_partial`). -/
+
+/-- **C03_static_safe_repaired** — all histories of protocol events (hence all interleavings of concurrent
+    reconciles), any length: with the garbage collection repaired, every answer is acceptable to the ledger
+    specification, and the state keeps refining the ledger. -/
+theorem C03_static_safe_repaired (ops : List Op) :
+    ∀ (s : State) (L : Ledger), Refines s L → wfTrace L ops (observations .repaired s ops) = true →
+      accepts L ops (observations .repaired s ops) = true ∧
+      Refines (run .repaired s ops) (advanceAll L ops (observations .repaired s ops)) := by
+  induction ops with
+  | nil => intro s L h _; exact ⟨rfl, h⟩
+  | cons op ops ih =>
+    intro s L h hwf
+    simp only [observations, wfTrace, Bool.and_eq_true] at hwf
+    obtain ⟨hok, href⟩ := step_repaired h op hwf.1
+    obtain ⟨h1, h2⟩ := ih _ _ href hwf.2
+    exact ⟨by simp only [observations, accepts, hok, h1, Bool.and_self], h2⟩
+
+/-- **C03_static_safe_partial** — the code as it is, under the hypothesis that no step of the history
+    garbage-collects a pool entry that still holds PendingDisruption NodeClaims or an outstanding reservation
+    and no `ReleaseNodeCount` meets a missing counter (`safeTrace`). -/
+theorem C03_static_safe_partial (ops : List Op) (s : State) (L : Ledger) (h : Refines s L)
+    (hsafe : safeTrace s ops = true) (hwf : wfTrace L ops (observations .asIs s ops) = true) :
+    accepts L ops (observations .asIs s ops) = true := by
+  rw [observations_agree ops s hsafe] at hwf ⊢
+  exact (C03_static_safe_repaired ops s L h hwf).1
+
+/-- **C03_static_safe_when_repaired** — once the source is in the repaired state (regenerated facts), the
+    full-strength statement holds for the code as it is: no hypothesis on the history other than that its events
+    are protocol events.  (At the pinned commit the hypothesis is false and the witnesses below apply.) -/
+theorem C03_static_safe_when_repaired (hfix : poolGCRepaired = true)
+    (ops : List Op) (s : State) (L : Ledger) (h : Refines s L)
+    (hwf : wfTrace L ops (observations .asIs s ops) = true) :
+    accepts L ops (observations .asIs s ops) = true := by
+  simp only [poolGCRepaired, Bool.and_eq_true, beq_iff_eq] at hfix
+  obtain ⟨⟨h1, h2⟩, h3⟩ := hfix
+  have hl : ∀ s op, lossy s op = false := by
+    intro s op
+    cases op <;> simp only [lossy]
+    · cases s.pools (s.mapping _) with
+      | none => rfl
+      | some e => simp only [gcCond, h1, h2]; simp
+    · simp [h3]
+  have hs : ∀ ops s, safeTrace s ops = true := by
+    intro ops
+    induction ops with
+    | nil => intro _; rfl
+    | cons op ops ih => intro s; simp [safeTrace, hl, ih]
+  exact C03_static_safe_partial ops s L h (hs ops s) hwf
+
+/-- **C03_static_never_exceeds** — one `ReserveNodeCount` in any state that refines the ledger: a positive grant
+    keeps NodeClaims + outstanding grants within the node limit, and nothing is granted beyond what was asked. -/
+theorem C03_static_never_exceeds (s : State) (L : Ledger) (h : Refines s L) (np : Name) (limit wanted : Int)
+    (hw : 1 ≤ wanted) :
+    let g := (reserve s np limit wanted).2
+    0 ≤ g ∧ g ≤ wanted ∧ (0 < g → (L.count np : Int) + L.outstanding np + g ≤ limit) := by
+  simp only [reserve_spec h, expectedGrant]
+  split
+  · omega
+  · split <;> omega
+
+/-- the three ways the code as it is violates the full statement (protocol-conformant histories) -/
+def releaseAfterGC : List Op := [.reserve 1 5 1, .update 1 1 false, .cleanup 1, .release 1 1]
+def pendingDropped : List Op := [.update 1 1 false, .update 1 2 false, .markPending 1 1, .cleanup 2, .count 1]
+def reservationLost : List Op := [.update 1 1 false, .reserve 1 2 1, .cleanup 1, .reserve 1 2 2]
+
+/-- `ReleaseNodeCount` after the entry was garbage-collected: nil dereference -/
+theorem C03_static_release_panics_witness : poolGCAsFound = true →
+    wfTrace Ledger.init releaseAfterGC (observations .asIs State.init releaseAfterGC) = true ∧
+    observations .asIs State.init releaseAfterGC = [.grant 1, .unit, .unit, .panic] ∧
+    accepts Ledger.init releaseAfterGC (observations .repaired State.init releaseAfterGC) = true := by decide
+
+/-- the PendingDisruption NodeClaim vanishes from the counts when the last other claim is cleaned up -/
+theorem C03_static_pending_dropped_witness : poolGCAsFound = true →
+    wfTrace Ledger.init pendingDropped (observations .asIs State.init pendingDropped) = true ∧
+    (observations .asIs State.init pendingDropped).getLast? = some (.counts 0 0 0) ∧
+    (observations .repaired State.init pendingDropped).getLast? = some (.counts 0 0 1) ∧
+    accepts Ledger.init pendingDropped (observations .asIs State.init pendingDropped) = false := by decide
+
+/-- an outstanding reservation is forgotten: 1 slot outstanding + 2 newly granted against a node limit of 2 -/
+theorem C03_static_reservation_lost_witness : poolGCAsFound = true →
+    wfTrace Ledger.init reservationLost (observations .asIs State.init reservationLost) = true ∧
+    observations .asIs State.init reservationLost = [.unit, .grant 1, .unit, .grant 2] ∧
+    observations .repaired State.init reservationLost = [.unit, .grant 1, .unit, .grant 1] ∧
+    accepts Ledger.init reservationLost (observations .asIs State.init reservationLost) = false := by decide
+
+/-! ### The static controllers' decisions: never above the limit, settling at the replica count -/
+
+/-- what one static-provisioning reconcile is granted, as a function of the counts it read -/
+def provisionGrant (running deleting pending : Nat) (reserved replicas limit : Int) : Int :=
+  match provisionWanted running pending replicas with
+  | none => 0
+  | some w =>
+    let room := limit - ((running + deleting + pending : Nat) : Int) - reserved
+    if room < 0 then 0 else if w > room then room else w
+
+/-- the model's `ReserveNodeCount` computes exactly that -/
+theorem provisionGrant_is_reserve (s : State) (np : Name) (replicas limit : Int) :
+    provisionGrant (counts s np).1 (counts s np).2.1 (counts s np).2.2 (reservedOf s np) replicas limit =
+      match provisionWanted (counts s np).1 (counts s np).2.2 replicas with
+      | none => 0
+      | some w => (reserve s np limit w).2 := by
+  unfold provisionGrant
+  cases provisionWanted (counts s np).1 (counts s np).2.2 replicas with
+  | none => rfl
+  | some w =>
+    simp only [reserve, counts_total, entryOf_ensure, reservedOf_ensure]
+    rw [← counts_total]
+    split <;> rfl
+
+/-- **C03_static_provision_bound** — a provisioning reconcile never takes claims + reservations above the node
+    limit (if they were not above it already), and never above the replica count. -/
+theorem C03_static_provision_bound (a d p : Nat) (r replicas limit : Int) :
+    let g := provisionGrant a d p r replicas limit
+    0 ≤ g ∧ (0 < g → (a + d + p : Nat) + r + g ≤ limit) ∧ (0 < g → (a : Int) + g ≤ replicas) := by
+  simp only [provisionGrant, provisionWanted]
+  split
+  · rename_i h; split at h <;> simp_all
+  · rename_i w h
+    split at h
+    · cases h
+    · simp only [Option.some.injEq] at h
+      subst h
+      split
+      · omega
+      · split <;> omega
+
+/-- **C03_static_settles_up** — quiescent pool (nothing deleting, pending or reserved) below its replica count
+    and with room under the limit: one provisioning reconcile whose creates succeed brings it to the replica count. -/
+theorem C03_static_settles_up (a : Nat) (replicas limit : Int) (hlt : (a : Int) < replicas) (hroom : replicas ≤ limit) :
+    (a : Int) + provisionGrant a 0 0 0 replicas limit = replicas := by
+  simp only [provisionGrant, provisionWanted]
+  have h1 : ¬ ((a : Int) + ((0 : Nat) : Int) ≥ replicas) := by omega
+  simp only [h1, if_false]
+  split
+  · omega
+  · split <;> omega
+
+/-- **C03_static_settles_down** — above the replica count the deprovisioning reconcile deletes exactly the excess;
+    at the replica count neither controller does anything (fixed point). -/
+theorem C03_static_settles_down (a : Nat) (replicas : Int) :
+    ((a : Int) > replicas → (a : Int) - deprovisionCount a replicas = replicas) ∧
+    ((a : Int) ≤ replicas → deprovisionCount a replicas = 0) ∧
+    ((a : Int) = replicas → provisionWanted a 0 replicas = none ∧ deprovisionCount a replicas = 0) := by
+  unfold deprovisionCount provisionWanted
+  refine ⟨?_, ?_, ?_⟩
+  · intro h
+    have : ¬ ((a : Int) - replicas ≤ 0) := by omega
+    simp only [this, if_false]
+    omega
+  · intro h
+    have : (a : Int) - replicas ≤ 0 := by omega
+    simp [this]
+  · intro h
+    have : (a : Int) - replicas ≤ 0 := by omega
+    simp [this]; omega
+
+/-! ### Static drift: the slots a round reserves
+
+Full-strength statement: after a drift round (`StaticDrift.ComputeCommands`, then `Queue.StartCommand` for every command)
+the reserved counter is back where it was, whatever happens to the individual commands.  The code as it is gives a slot
+back only inside `CreateNodeClaims`; a `StartCommand` that returns earlier (its `markDisrupted` failed) keeps it. -/
+
+open Karp.StaticPool in
+/-- **C03_drift_round_gives_slots_back_partial** — a round in which no `StartCommand` returns before
+    `createReplacementNodeClaims` (`lost = []`), whatever the budget, the candidates and whichever replacement creates
+    fail: nothing panics and every reserved slot is given back. -/
+theorem C03_drift_round_gives_slots_back_partial (s : State) (replicas : Int) (limit : Option Int) (budget : Nat)
+    (cands createFail : List Nat) (next : Nat) (h0 : 0 ≤ reservedOf s Karp.StaticPool.np) :
+    (driftRound s replicas limit budget cands [] createFail next).panicked = false ∧
+    reservedOf (driftRound s replicas limit budget cands [] createFail next).st Karp.StaticPool.np
+      = reservedOf s Karp.StaticPool.np :=
+  driftRound_gives_back s replicas limit budget cands createFail next h0
+
+/-- two launched NodeClaims (2, 3), both drifted, budget 1, limit 3 -/
+def driftWitnessState : State := update (update State.init 1 2 false) 1 3 false
+
+open Karp.StaticPool in
+/-- the first command returns early: one slot stays reserved (at the pinned commit; with
+    `fixes/C03-drift-reservation-leak.patch` the regenerated fact flips and the slot is given back) -/
+theorem C03_drift_slot_leak_witness : Karp.Gen.C03Pool.startCommandReleasesEarly = false →
+    reservedOf (driftRound driftWitnessState 2 (some 3) 1 [2, 3] [0] [] 4).st Karp.StaticPool.np = 1 ∧
+    (driftRound driftWitnessState 2 (some 3) 1 [2, 3] [0] [] 4).failed = 1 := by decide
+
+/-! ## Part 2 — limits within a pass and across passes -/
+
+section Limits
+open Karp.Limits
+variable {κ : Type} [DecidableEq κ]
+
+/-- **C03_limits_filter_sound** — an instance type that survives `filterByRemainingResources` fits into the
+    remaining amount of every limited resource. -/
+theorem C03_limits_filter_sound (its : List (IT κ)) (remaining : Res κ) (it : IT κ)
+    (h : it ∈ filterByRemaining its remaining) (k : κ) (q : Int) (hq : remaining.lookup k = some q) :
+    it.cap.get k ≤ q := by
+  unfold filterByRemaining at h
+  rw [List.mem_filter] at h
+  exact viable_le remaining it h.2 k q hq
+
+/-- **C03_limits_pass** — any number of NodeClaims opened by one pass (any options that pass the guard, narrowed
+    arbitrarily by `CanAdd`): for every limited resource `k` whose consumption `subtractMax` tracks, the sum over
+    the new NodeClaims of the *largest* usage among their options fits into what remained at the start of the pass.
+    `Tracks v nodes k` is `k ≠ nodes` for the code as it is (unless the regenerated fact `subtractMaxCountsNode` says that
+    `subtractMax` accounts for the node), and every `k` for the repaired `subtractMax`. -/
+theorem C03_limits_pass (v : Karp.Limits.Variant) (nodes k : κ) (htr : Tracks v nodes k)
+    (claims : List (List (IT κ))) (remaining : Res κ) (q : Int)
+    (hpass : passOk v nodes remaining claims = true) (hne : claims ≠ [])
+    (hq : remaining.lookup k = some q)
+    (hnn : ∀ opts ∈ claims, ∀ it ∈ opts, NonNeg it) (hwhole : k = nodes → oneNode ∣ q) :
+    sumWorst nodes claims k ≤ q :=
+  pass_bound v nodes k htr claims remaining q hpass hne hq hnn hwhole
+
+/-- usage of the instance types the provider actually launches -/
+def sumChosen (nodes : κ) (chosen : List (IT κ)) (k : κ) : Int :=
+  match chosen with
+  | [] => 0
+  | it :: rest => usageOf nodes it k + sumChosen nodes rest k
+
+/-- the provider picks, for each NodeClaim, one of its permitted instance types -/
+inductive Picks : List (IT κ) → List (List (IT κ)) → Prop
+  | nil : Picks [] []
+  | cons {it : IT κ} {opts : List (IT κ)} {chosen : List (IT κ)} {claims : List (List (IT κ))} :
+      it ∈ opts → Picks chosen claims → Picks (it :: chosen) (opts :: claims)
+
+/-- **C03_limits_any_choice** — whichever permitted instance type the provider picks for each NodeClaim, the
+    launched usage is at most the worst case the pass accounted for. -/
+theorem C03_limits_any_choice (nodes k : κ) (claims : List (List (IT κ))) (chosen : List (IT κ))
+    (h : Picks chosen claims) :
+    (∀ opts ∈ claims, ∀ it ∈ opts, NonNeg it) → sumChosen nodes chosen k ≤ sumWorst nodes claims k := by
+  induction h with
+  | nil => intro _; simp [sumChosen, sumWorst]
+  | @cons it opts chosen' claims' hmem _ ih =>
+    intro hnn
+    have hrest := ih (fun o ho => hnn o (List.mem_cons_of_mem _ ho))
+    have hone : usageOf nodes it k ≤ worst nodes opts k := by
+      unfold usageOf worst
+      split
+      · exact Int.le_refl _
+      · exact le_maxAt opts (hnn opts List.mem_cons_self) it hmem k
+    simp only [sumChosen, sumWorst]
+    omega
+
+/-- **C03_limits_rounds** — any history of passes (enabled only while no NodeClaim is unlaunched: `Synced`),
+    launches (any option, any capacity the provider contract allows), lost NodeClaims and node removals, of any
+    length: a pool that is within its limit for `k` stays within it, counting every unlaunched NodeClaim with its
+    worst option — in the terms of the independent specification. -/
+theorem C03_limits_rounds (v : Karp.Limits.Variant) (nodes k : κ) (htr : Tracks v nodes k) (evs : List (Ev κ)) (P : Pool κ)
+    (hwf : WFPool nodes P) (hin : Within nodes P k) (hen : enabledAll v nodes P evs = true) :
+    ∀ l, (runEvs P evs).limits.lookup k = some l →
+      Karp.Spec.Limits.total nodes (runEvs P evs).existing
+        ((runEvs P evs).unlaunched.map (fun o => o.map (·.cap))) k ≤ l := by
+  intro l hl
+  obtain ⟨hwf', hin'⟩ := run_within v nodes k htr evs P hwf hin hen
+  exact Int.le_trans (spec_total_le nodes _ hwf' k) (hin' l hl)
+
+/-- **C03_create_guard** — `Limits.ExceededBy` lets a create through exactly when no limited resource is already
+    used above its limit. -/
+theorem C03_create_guard (limits usage : Res κ) :
+    exceededBy limits usage = false ↔ ∀ k u l, (k, u) ∈ usage → limits.lookup k = some l → u ≤ l :=
+  exceededBy_false_iff limits usage
+
+end Limits
+
+/-! ### The node limit of a dynamic pool inside one pass
+
+Full-strength statement: `C03_limits_pass` for *every* limited resource, `nodes` included.  The code as it is does
+not decrement `nodes` in `subtractMax` (an instance type has no `nodes` capacity), so within one pass the node limit
+only stops new NodeClaims when it was already exhausted at the start.  Witness (replayed on the real provisioner by
+`corpus/c03.limitsnodes/*`): `limits.nodes = 2`, four NodeClaims opened in one pass. -/
+
+namespace NodesWitness
+open Karp.Limits
+
+def nodesKey : Nat := 0
+def cpuKey : Nat := 1
+def small : IT Nat := { name := 1, cap := [(cpuKey, 4000)] }
+def limits : Res Nat := [(nodesKey, 2 * oneNode)]
+def fourClaims : List (List (IT Nat)) := [[small], [small], [small], [small]]
+
+end NodesWitness
+
+open Karp.Limits NodesWitness in
+/-- the model of the code as it is admits the pass; the specification rejects its outcome; the repaired
+    `subtractMax` refuses the third NodeClaim -/
+theorem C03_limits_nodes_witness : Karp.Gen.C03Limits.subtractMaxCountsNode = false →
+    passOk .asIs nodesKey (remainingAtStart limits []) fourClaims = true ∧
+    Karp.Spec.Limits.roundOk nodesKey limits [] [] (fourClaims.map (fun o => o.map (·.cap))) = false ∧
+    passOk .repaired nodesKey (remainingAtStart limits []) fourClaims = false ∧
+    passOk .repaired nodesKey (remainingAtStart limits []) (fourClaims.take 2) = true := by decide
+
+/-! ## Non-vacuity -/
+
+/-- the initial state refines the empty ledger -/
+example : Refines State.init Ledger.init := refines_init
+
+/-- a history in which a grant is clamped by the limit, is outstanding across other threads' events, a claim is
+    pending disruption and entries are cleaned up: it is a protocol history, safe, and accepted for both variants -/
+def busyHistory : List Op :=
+  [.update 1 1 false, .update 1 2 false, .count 1, .reserve 1 3 2, .markPending 1 1, .update 1 3 false, .release 1 1,
+   .markDeleting 1 1, .count 1, .reserve 1 3 1, .cleanup 1, .count 1, .reserve 1 3 1, .update 1 4 false, .release 1 1, .count 1]
+
+example : wfTrace Ledger.init busyHistory (observations .asIs State.init busyHistory) = true ∧
+    safeTrace State.init busyHistory = true ∧
+    observations .asIs State.init busyHistory =
+      [.unit, .unit, .counts 2 0 0, .grant 1, .unit, .unit, .unit, .unit, .counts 2 1 0, .grant 0, .unit,
+       .counts 2 0 0, .grant 1, .unit, .unit, .counts 3 0 0] := by decide
+
+example : accepts Ledger.init busyHistory (observations .asIs State.init busyHistory) = true :=
+  C03_static_safe_partial busyHistory State.init Ledger.init refines_init (by decide) (by decide)
+
+example : provisionGrant 1 1 0 1 5 4 = 1 ∧ provisionGrant 2 0 0 0 5 7 = 3 ∧ deprovisionCount 5 3 = 2 := by decide
+
+namespace NonVacuity
+open Karp.Limits
+
+def nodesKey : Nat := 0
+def cpu : Nat := 1
+def mem : Nat := 2
+def itS : IT Nat := { name := 1, cap := [(cpu, 2000), (mem, 4000)] }
+def itL : IT Nat := { name := 2, cap := [(cpu, 8000), (mem, 16000)] }
+def limits : Res Nat := [(cpu, 16000), (nodesKey, 3 * oneNode)]
+def pool0 : Pool Nat := { limits := limits, existing := [], unlaunched := [] }
+
+/-- a pass that opens two NodeClaims (the second one no longer admits the large type), both launch as their largest
+    option, a second pass opens one more small NodeClaim, a node is removed -/
+def history : List (Ev Nat) :=
+  [.pass [[itS, itL], [itS, itL]], .launch 0 1 itL.cap, .launch 0 1 itL.cap, .pass [], .remove 0, .pass [[itS, itL]],
+   .lose 0]
+
+example : enabledAll .asIs nodesKey pool0 history = true := by decide
+example : passOk .asIs nodesKey (remainingAtStart limits []) [[itS, itL], [itS, itL], [itS]] = false := by decide
+example : sumWorst nodesKey [[itS, itL], [itS, itL]] cpu = 16000 := by decide
+example : WFPool nodesKey pool0 := by
+  refine ⟨?_, ?_, ?_⟩
+  · intro e he; simp [pool0] at he
+  · intro o ho; simp [pool0] at ho
+  · intro l hl
+    have : l = 3 * oneNode := by
+      have h' : (some (3 * oneNode) : Option Int) = some l := hl
+      exact (Option.some.inj h').symm
+    subst this; exact ⟨3, by decide⟩
+example : Within nodesKey pool0 cpu := by
+  intro l hl
+  have : l = 16000 := by
+    have h' : (some 16000 : Option Int) = some l := hl
+    exact (Option.some.inj h').symm
+  subst this; decide
+
+end NonVacuity
+
 end Karp.C03
